@@ -82,6 +82,10 @@ def model_at(drv, nearest, period, xp, slab2d, xs):
 def compare_arrays(run, kernel, impl, model, scale, info):
     """impl: (m, np) floats, model: list of lists of Fraction/None"""
     bad = None
+    impl = np.asarray(impl, dtype=float)
+    if impl.ndim != 2 or impl.shape[0] != len(model) or (len(model) and impl.shape[1] != len(model[0])):
+        run.mismatch(kernel, dict(info, reason="shape", impl_shape=list(impl.shape), model_shape=[len(model), len(model[0]) if model else 0]))
+        return False
     for i, row in enumerate(model):
         for j, ex in enumerate(row):
             v = float(impl[i][j])
@@ -141,6 +145,12 @@ def check_c13(run, drv, ncases, start=0):
         shape[axis] = len(xp)
         nan_rate = rng.choice([0.0, 0.0, 0.1, 0.3])
         data = rand_data(rng, shape, nan_rate)
+        stored = data
+        if nan_rate == 0.0 and rng.random() < 0.35:
+            # counts, flags, whole-metre levels: integer storage; the interpolant is still the real piecewise-linear value
+            stored = np.round(data * 7).astype(rng.choice(["int64", "int32"]))
+            data = stored.astype(float)
+            run.count("integer_variable")
         nearest = rng.random() < 0.3
         if coord_name == "time":
             t0 = np.datetime64("2022-01-01T00:00:00", "ns")
@@ -154,7 +164,7 @@ def check_c13(run, drv, ncases, start=0):
         for nm, sz in zip(names, shape):
             if nm != coord_name:
                 coords[nm] = np.arange(sz) * 1.0
-        ds = xarray.Dataset({"v": (names, data), "other": (("zz",), np.array([1.0, 2.0]))}, coords=coords)
+        ds = xarray.Dataset({"v": (names, stored), "other": (("zz",), np.array([1.0, 2.0]))}, coords=coords)
         try:
             with warnings.catch_warnings():
                 warnings.simplefilter("ignore")
@@ -219,6 +229,11 @@ def check_c13(run, drv, ncases, start=0):
                 warnings.simplefilter("ignore")
                 out2 = interpolate_dataset_grid({"xa": ta, "xb": tb}, ds2)
             r2 = np.asarray(out2["v"].values, dtype=float)
+            if r2.shape != (len(ta), len(tb)):
+                run.case("interp_grid", key=(case, "grid"))
+                run.violation("interpolating along two coordinates does not return the (targets, targets) grid: a coordinate was left on its own grid",
+                              dict(xa=xa.tolist(), xb=xb.tolist(), ta=ta.tolist(), tb=tb.tolist(), got_shape=list(r2.shape)))
+                continue
             m1 = model_at(drv, False, None, xa, d2, ta)                       # (len(ta), len(xb))
             inter = np.array([[np.nan if v is None else float(v) for v in row] for row in m1])
             m2 = model_at(drv, False, None, xb, inter.T.copy(), tb)            # (len(tb), len(ta))
